@@ -541,12 +541,36 @@ func (s *SwapService) estimateMaximumSwapAmountSat(chain string) (uint64, error)
 	return 0, errors.New("invalid chain")
 }
 
+// refuseKnownSwapId refuses a swap request that reuses the id of a swap this
+// node already knows, be it active, finished or persisted but not yet
+// recovered after a restart. The existing swap is left untouched and the
+// requester is told that the swap is canceled.
+func (s *SwapService) refuseKnownSwapId(swapId *SwapId, peerId string) error {
+	_, activeErr := s.GetActiveSwap(swapId.String())
+	_, storeErr := s.swapServices.swapStore.GetData(swapId.String())
+	if activeErr != nil && storeErr != nil {
+		return nil
+	}
+	err := fmt.Errorf("swap id %s is already in use", swapId.String())
+	msgBytes, msgType, marshalErr := MarshalPeerswapMessage(&CancelMessage{
+		SwapId:  swapId,
+		Message: err.Error(),
+	})
+	if marshalErr == nil {
+		s.swapServices.messenger.SendMessage(peerId, msgBytes, msgType)
+	}
+	return err
+}
+
 // OnSwapInRequestReceived creates a new swap-in process and sends the event to the swap statemachine
 func (s *SwapService) OnSwapInRequestReceived(swapId *SwapId, peerId string, message *SwapInRequestMessage) error {
 	var (
 		premiumValue int64
 		err          error
 	)
+	if err := s.refuseKnownSwapId(swapId, peerId); err != nil {
+		return err
+	}
 	// Network is the desired on-chain network to use. This can be:
 	// Bitcoin: mainnet, testnet, signet, regtest
 	// Liquid: The field is left blank as the asset id also defines the bitcoinNetwork.
@@ -658,6 +682,9 @@ func (s *SwapService) OnSwapOutRequestReceived(swapId *SwapId, peerId string, me
 		premiumValue int64
 		err          error
 	)
+	if err := s.refuseKnownSwapId(swapId, peerId); err != nil {
+		return err
+	}
 	// Network is the desired on-chain network to use. This can be:
 	// Bitcoin: mainnet, testnet, signet, regtest
 	// Liquid: The field is left blank as the asset id also defines the bitcoinNetwork.
